@@ -559,7 +559,15 @@ def ob_snapshot_isolation(st: int, kind: int, mk: int, empty: int = 0) -> bool:
             after = store_plain(store)
             want = dict(before)
             want[key] = ["changed"] if (kind != K_DS and mk != MK_OVERWRITE) else "changed"
-            return deq(after, want)
+            if not deq(after, want):
+                return False
+            # ... and that was ONE write-back: changing the same object again does not change the store a second time (a further change
+            # needs a further write-back; the plain nested-dict model and the SQLite store keep what was written)
+            if kind == K_DS:
+                snap[key] = "changed again"
+            else:
+                setattr(snap, key, ["changed again"] if key == "b" else "changed again")
+            return deq(store_plain(store), want)
 
 
 @obligation(quick=90, thorough=200, partitions_quick=[f"kind == {k}" for k in (2, 4)], partitions_thorough=[f"kind == {k} and o1 == {o}" for k in (2, 4) for o in range(5)],
